@@ -20,7 +20,8 @@
     - [optimize_impl]            <->  XXX.optimize as written (returns scipy's result, lens untouched afterwards)
     - [optimize_fixed]           <->  the repaired optimize (applies result.x, update_optics())
     - [undo_impl] / [undo_fixed] <->  OptimizerGeneric.undo as written / with update_optics()
-    - [upd_pickups]              <->  PickupManager.apply (Optic.update without solves) *)
+    - [upd_pickups]              <->  PickupManager.apply (Optic.update without solves)
+    - [update_optics] [dedup]    <->  OptimizationProblem.update_optics (which optics get update(), how often) *)
 From Coq Require Import ZArith List Bool PrimFloat.
 From OV Require Import Ops Gen.OptVars.
 Import ListNotations.
@@ -177,4 +178,18 @@ Section Model.
     Definition exec_impl (cs : list cmd) (st : opt_state) : opt_state := fold_left step_impl cs st.
     Definition exec_fixed (cs : list cmd) (st : opt_state) : opt_state := fold_left step_fixed cs st.
   End Machine.
+  (** ** OptimizationProblem.update_optics for a problem spanning several optics:
+      collect the SET of optics owning a variable, update each member once.
+      [owners] = the optic (an integer id) of each variable, in variable order; [dedup] is the set
+      (the iteration order of a Python set is arbitrary: the theorems hold for every duplicate-free
+      enumeration of the same members). *)
+  Fixpoint dedup (l : list Z) : list Z :=
+    match l with
+    | [] => []
+    | x :: r => if existsb (Z.eqb x) r then dedup r else x :: dedup r
+    end.
+  Definition update_each (u : Z -> store -> store) (order : list Z) (s : store) : store :=
+    fold_left (fun (s : store) (o : Z) => u o s) order s.
+  Definition update_optics (u : Z -> store -> store) (owners : list Z) (s : store) : store :=
+    update_each u (dedup owners) s.
 End Model.
